@@ -13,7 +13,10 @@ RULE = ("fork() bracketed by call_rcu_before_fork / after_fork_parent / after_fo
         "hash table (add, resize, traversal, del, destroy; AUTO_RESIZE variant) and the hash table inherited from before the fork; "
         "oracles: everything returns (deadlock / livelock detection: e.g. joining a thread that does not exist in the child, a mutex "
         "held by a vanished thread), every callback queued before the fork runs exactly once in the followed process, callbacks queued "
-        "after it run once, the child's bp registry holds exactly the forking thread (white-box), no use-after-free")
+        "after it run once, the child's bp registry holds exactly the forking thread (white-box), no use-after-free; scenario fork2: two "
+        "consecutive bracketed forks (the process that came out of the first forks again; all four child/parent combinations), with a table and "
+        "resize worker from before the first fork that gets more work before the second, and (bp) another thread creating the process's "
+        "first AUTO_RESIZE table inside the first bracket")
 ASSUMPTIONS = ["parent and child share no memory after fork, so exploring them separately loses no behaviour",
                "vrt fork model: the child keeps only the calling thread; mutex state is copied", "x86-TSO",
                "pthread_atfork-based registration is not explored (discouraged by the README); handlers are called explicitly"]
@@ -51,6 +54,16 @@ def jobs(tier):
                     J.append(Job(b, "fork", P1 if q else P2, dict(p, readers=2, hold=1, ncb=0, **cap), env, workers=8))
                     J.append(Job(b, "fork", P1, dict(p, readers=1, hold=1, ncb=0, helpers=1, **cap), env, workers=8))
                     J.append(Job(b, "fork", P1 if q else P2, dict(p, readers=1, hold=2, ncb=0, updater=1, **cap), env, workers=8))
+        # two consecutive forks (the process that came out of the first one forks again), followed on every combination of sides
+        env = envs[0]
+        for f1 in (0, 1):
+            for f2 in (0, 1):
+                p = {"qs_attempts": 1, "wait_attempts": 1, "fork_follow": f1, "fork_follow2": f2}
+                deep = (not q) or b == "fk_memb" or f2 == 1
+                J.append(Job(b, "fork2", "1,0,0,0" if deep else "0,0,0,0", dict(p, pre_lfht=1), env, workers=8))
+                if b == "fk_bp" and f1 == 1:
+                    # another thread creates the process's first AUTO_RESIZE table while the forking thread is inside its first bracket
+                    J.append(Job(b, "fork2", "1,0,0,0" if q else "2,0,0,0", dict(p, racer=1), env, workers=8))
     return J
 
 
